@@ -293,7 +293,8 @@ def prod_isolation(e, tier="quick", ops=None):
                       info=dict(op=op, shape="%s/%s" % (xa.a_shape, xa.o_shape)))
 
 
-HISTORIES = ["open_add", "alloc", "claim", "open_add_sweep", "alloc_sweep_claim", "open_close_other"]
+HISTORIES = ["open_add", "alloc", "claim", "open_add_sweep", "alloc_sweep_claim", "open_close_other",
+             "claim_list_open_close", "claim_list_release"]
 
 
 def run_history(x, kind, sy):
@@ -335,6 +336,21 @@ def run_history(x, kind, sy):
     elif kind == "claim":
         g = conn("gA", b.app, sy["g.side"])
         w.deliver(g, w.msg("claim", nameplate=sy["h.name"]))
+        w.disconnect(g)
+    elif kind in ("claim_list_open_close", "claim_list_release"):
+        # a whole little session: claim, look at the listing, then retire the nameplate again, either
+        # by closing its mailbox while still claimed or by releasing it
+        g = conn("gA", b.app, sy["g.side"])
+        w.deliver(g, w.msg("claim", nameplate=sy["h.name"]))
+        w.deliver(g, w.msg("list"))
+        got = [r["frame"].get("mailbox") for r in g.frames if r["frame"].get("type") == "claimed"]
+        if not got:
+            e.assume(False)
+        if kind == "claim_list_open_close":
+            w.deliver(g, w.msg("open", mailbox=got[0]))
+            w.deliver(g, w.msg("close", mood=sy["g.phase"]))
+        else:
+            w.deliver(g, w.msg("release"))
         w.disconnect(g)
     elif kind == "open_close_other":
         g = conn("gA", b.app, sy["g.side"])
